@@ -673,7 +673,8 @@ def ledger_tags(head, evs, line, msg):
         elif x.get("t") == "op" and x.get("k") == k and x.get("ret") == "ok":
             written_since = True
     return {"msg": msg.split(" (")[0], "phase": e.get("phase", ""), "last_op": (last or {}).get("op", ""), "last_op_phase": (last or {}).get("phase", ""),
-            "all_copies_were_on_the_crashed_member": surv == 0 and not written_since}
+            "all_copies_were_on_the_crashed_member": surv == 0 and not written_since,
+            "a_survivor_still_stores_the_key": bool(surv) and not written_since, "live_members": e.get("live", -1)}
 
 
 def ledger_run(ctx, test, tracefile, summary, env, design, rule, what):
